@@ -93,11 +93,16 @@ def run_case(ctx, seed, idx, tier):
             nv += 1
             goals[-1] = ('or', ('then', ('call', C('o', V('V%d' % nv))), ('cut',)), ('true',))
         body = gen.conj(goals)
-        clauses, qn, na = control.wrap_body([body, conj_all(nv)], nv)
+        clauses, qn, na = control.wrap_body([body, conj_all(nv)], nv, rng)
         return control.run_control(ctx, clauses, qn, na, rng, {'long_bodies': 1}, _nt)
     w = {'and': 0.50, 'or': 0.20, 'ite': 0.15, 'then': 0.07, 'not': 0.08}
     clauses, qn, na = gen.gen_control_case(rng, weights=w, allow_cut_p=1.0)
     c = {'random_bodies': 1}
+    if rng.random() < 0.4:
+        bodies = [b for h, b in clauses if h[1] == 't']
+        clauses, qn, na = control.wrap_body(bodies, na - 1, rng)
+        if any(h[0] == 'c' and h[1] == 't' and len(h[2]) >= 2 and h[2][0][1] in ('S', '_', 'K1', 'm0', 'm1') for h, b in clauses):
+            c['clause_selecting_heads'] = 1
     loads = None
     if rng.random() < 0.25:
         # the same predicate defined by several loads: each group keeps its own cuts
